@@ -518,27 +518,34 @@ func allocPrivate(a *ssa.Alloc) bool {
 				if depth > 2 {
 					return false
 				}
-				// the closure itself must only be deferred or called in place
+				// the closure itself must only be deferred or called in place; a closure that escapes (e.g. is handed to
+				// a callee) is fine too as long as it, and whatever it captures the variable into, only ever loads it:
+				// then no callee can change the variable either
+				inPlace := true
 				for _, cr := range *x.Referrers() {
 					switch y := cr.(type) {
 					case *ssa.Defer:
 						if y.Call.Value != x {
-							return false
+							inPlace = false
 						}
 					case *ssa.Call:
 						if y.Call.Value != x {
-							return false
+							inPlace = false
 						}
 					case *ssa.DebugRef:
 					default:
-						return false
+						inPlace = false
 					}
 				}
 				fn := x.Fn.(*ssa.Function)
 				for i, b := range x.Bindings {
 					if b == self {
 						fvv := fn.FreeVars[i]
-						if !okRefs(*fvv.Referrers(), fvv, depth+1) {
+						if inPlace {
+							if !okRefs(*fvv.Referrers(), fvv, depth+1) {
+								return false
+							}
+						} else if !readOnlyRefs(fvv, 0) {
 							return false
 						}
 					}
@@ -550,6 +557,33 @@ func allocPrivate(a *ssa.Alloc) bool {
 		return true
 	}
 	return okRefs(*a.Referrers(), a, 0)
+}
+
+// readOnlyRefs: the captured variable (a free variable of a closure) is only loaded, by this closure and by the closures
+// it is captured into in turn.
+func readOnlyRefs(v ssa.Value, depth int) bool {
+	if depth > 3 {
+		return false
+	}
+	for _, r := range *v.Referrers() {
+		switch x := r.(type) {
+		case *ssa.UnOp:
+			if x.Op != token.MUL {
+				return false
+			}
+		case *ssa.DebugRef:
+		case *ssa.MakeClosure:
+			fn := x.Fn.(*ssa.Function)
+			for i, b := range x.Bindings {
+				if b == v && !readOnlyRefs(fn.FreeVars[i], depth+1) {
+					return false
+				}
+			}
+		default:
+			return false
+		}
+	}
+	return true
 }
 
 // ---------------------------------------------------------------- running a function body
